@@ -18,6 +18,8 @@ pub enum Op {
     Poll { w: u32 },
     /// invoke the stored waker of child c (by reference, or a clone by value)
     Wake { c: u32, by_val: bool },
+    /// the environment completes child c (it answers Ready at its next poll) and invokes its waker
+    Complete { c: u32 },
     /// keep one more clone of child c's waker / drop one of the extra clones
     Wclone { c: u32 },
     Wdrop { c: u32 },
@@ -491,6 +493,10 @@ impl Runner {
                 self.poll(*w);
             }
             Op::Wake { c, by_val } => self.wake(*c, *by_val),
+            Op::Complete { c } => {
+                with(|w| w.ready.insert(*c));
+                self.wake(*c, false);
+            }
             Op::Wclone { c } => {
                 let wk = with(|w| w.stash.remove(c));
                 if let Some(wk) = wk {
